@@ -148,6 +148,10 @@ fn main() {
             let n: usize = args[2].parse().unwrap();
             println!("{}", treeops::probe_load(n));
         }
+        Some("open_contention") => {
+            println!("{}", treeops::open_contention());
+            std::process::exit(0);       // a waiter that is still in its retry loop must not keep the process alive
+        }
         Some("reopen_loop") => {
             let n: usize = args[2].parse().unwrap();
             println!("{}", treeops::reopen_loop(n));
